@@ -27,6 +27,15 @@ The four classes are the same code up to names, the `decode` they call and `send
   `val v` (decoded value `v`; for ASN.1 a `DecodeError` yields the falsy value `{}`, which is just another value here).
 * As in the inner model, where the real code goes on within the same step (the dispatcher taking the next message after a handler
   returned) the model ends the step and sets `imm2`; the driver runs `D2` again at once.
+* User callbacks of the application layer: message callback `ret | await k | raise | close` (awaits `app.close()`) | `awaitClose k`
+  (works, then awaits `app.close()`: more messages may be queued behind it) | `awaitCC k` (awaits; its cancellation clean-up awaits
+  `app.close()`); close callback `ret | await k | close`.
+* `ACfg.closedFirst`: the order inside `_on_soup_close`.  `true` = the code as it is (/repo 7eb8348: `closed = True`, then
+  `await queue.stop()`); `false` = the order up to 35c133f (`stop()` first), kept as the subject of
+  `Witness.C05App.C05App_witness_cleanup_close_deadlock`.
+* The application session is constructed in the step in which `login()` returned an active session (what `<kind>.connect_async`
+  does); before that the soup session has no callbacks.  The inner step out of the callback stage happens in the very step in
+  which `_on_soup_close` returns (`finishClose`), so every product event is zero, one or two inner events.
 -/
 namespace NasdaqModel.App
 open NasdaqModel
